@@ -95,6 +95,8 @@ type vfNet struct {
 	held     []*vfQueued
 	stopped  bool
 	lastDue  [2]time.Duration
+	relBase  [2]int
+	relSet   bool
 
 	seq      atomic.Int64
 	wake     chan struct{}
@@ -219,7 +221,8 @@ func (n *vfNet) send(from int, raw []byte) {
 		if f.Dir != from {
 			continue
 		}
-		match := (f.Kind == "any" && f.Nth == ord) || (f.Kind == kind && f.Nth == kord)
+		match := (f.Kind == "any" && !f.Rel && f.Nth == ord) || (f.Kind == kind && f.Nth == kord) ||
+			(f.Kind == "any" && f.Rel && n.relSet && f.Nth == ord-n.relBase[from])
 		if !match {
 			continue
 		}
@@ -327,6 +330,16 @@ func (n *vfNet) dropQueued() {
 	n.mu.Lock()
 	n.q = n.q[:0]
 	n.held = nil
+	n.mu.Unlock()
+}
+
+// markRel makes relative fault ordinals count from the packets written after this instant.
+func (n *vfNet) markRel() {
+	n.mu.Lock()
+	if !n.relSet {
+		n.relBase = n.ord
+		n.relSet = true
+	}
 	n.mu.Unlock()
 }
 
